@@ -50,7 +50,10 @@ class OSFS(FS):
 
     def _abs(self, rel_path: str) -> Path:
         self.check()
-        return (self._root / rel_path.strip("/")).resolve()
+        p = (self._root / rel_path.strip("/")).resolve()
+        if p != self._root and self._root not in p.parents:
+            raise ResourceError(f"path {rel_path!r} points outside of {str(self._root)!r}")
+        return p
 
     def open(self, path: str, mode: str = "rb", **kwargs) -> IO[Any]:
         try:
